@@ -1,9 +1,49 @@
 (* C14 — rendering an interface description and parsing it back is the identity.
-   Only pinned statements; proofs are in Idl/*Proofs.v. *)
-From ZV Require Import Common.Base Idl.Idl Idl.IdlParse Idl.IdlExec Idl.IdlExamples.
+   Only pinned statements. `render` (Idl/Idl.v) transcribes the Display impls of
+   zlink-core/src/idl byte for byte, `parse_interface` (Idl/IdlParse.v) transcribes
+   zlink-core/src/idl/parse/mod.rs; proofs are in Idl/IdlRoundTrip.v.
 
-(* Non-vacuity: a description with every type constructor and every comment placement satisfies
-   the hypotheses, is outside the known class, and round-trips in the model. *)
+   Hypotheses (Idl/IdlExec.v, executable): `interface_wf t` — every name follows the grammar's
+   regular expression for its kind; every comment on the interface, on a member and on a direct
+   field / parameter / variant of a member is valid UTF-8 without line break (LF, CR) and without a
+   leading blank; enums have at least one variant; no `??`; no comments INSIDE inline types (those
+   are layout, not part of the property). `known_commented_enum t` is the open finding
+   C14.commented_enum_variant: a custom enum with two or more variants one of which is commented. *)
+From ZV Require Import Common.Base Idl.Idl Idl.IdlParse Idl.IdlExec Idl.IdlRoundTrip Idl.IdlExamples.
+
+(* parse (render t) = t, including every comment and the order of members of each kind *)
+Theorem C14_parse_render : forall t : interface,
+  interface_wf t = true -> known_commented_enum t = false ->
+  parse_interface (render t) = Accept t.
+Proof. exact parse_render_wf. Qed.
+Print Assumptions C14_parse_render.
+
+(* render (parse (render t)) = render t *)
+Theorem C14_render_parse_render : forall t t' : interface,
+  interface_wf t = true -> known_commented_enum t = false ->
+  parse_interface (render t) = Accept t' -> t' = t /\ render t' = render t.
+Proof. exact render_parse_render. Qed.
+Print Assumptions C14_render_parse_render.
+
+(* The type-level core, for every nesting of optional / array / map / inline struct / inline enum:
+   the type parser consumes exactly the rendering of a well-formed type in front of any ',' or ')'. *)
+Theorem C14_type_round_trip : forall t : ty,
+  ty_names_ok t && ty_wf t = true ->
+  forall x, delim x -> varlink_type (render_ty t ++ x) = (Ok t, x).
+Proof. intros t H x Hx. now apply varlink_type_render. Qed.
+Print Assumptions C14_type_round_trip.
+
+(* The open finding: inside the hypotheses but in the known class the statement is false — the
+   rendering of custom_enum.rs's own test value is rejected by the parser (replayed on every run
+   against the implementation: corpus/c14.jsonl). *)
+Theorem C14_commented_enum_refuted : exists t : interface,
+  interface_wf t = true /\ known_commented_enum t = true /\ parse_interface (render t) = Reject.
+Proof. exists commented_enum_tree. repeat split; vm_compute; reflexivity. Qed.
+Print Assumptions C14_commented_enum_refuted.
+
+(* Non-vacuity: a description with every type constructor and every comment placement (incl. a
+   single commented enum variant, an empty struct, an empty comment) satisfies the hypotheses, is
+   outside the known class, and round-trips by evaluation. *)
 Example C14_nonvacuous :
   interface_wf sample_tree = true /\ known_commented_enum sample_tree = false
   /\ parse_interface (render sample_tree) = Accept sample_tree.
